@@ -202,6 +202,48 @@ def rule_partition(ck: Check, repo: Repo, rid: str = "R4") -> None:
     if not has(src, "for index in indices:", ["index", "indices"]) or \
             not has(src, "indices = _indices_of_newlines(text)", ["indices", "text"]):
         r.violation(q, "comment blocks are not searched at line starts", "every line start must be a candidate", repo.loc(fn))
+    # len(comment) is used as an offset into the text: every comment_at_first_character must return a PREFIX of its
+    # argument (unmodified lines joined by the newline that separated them)
+    from ..fold import Folder  # noqa: F401  (kept local: c08 has no folder otherwise)
+    n_impl = 0
+    for cq, cfn in sorted(repo.functions.items()):
+        if not cq.endswith(".comment_at_first_character"):
+            continue
+        n_impl += 1
+        p_text = cfn.args.args[1].arg if len(cfn.args.args) > 1 else "text"
+        forms = []
+        for rt in [n for n in ast.walk(cfn) if isinstance(n, ast.Return) and n.value is not None]:
+            v = rt.value
+
+            def resolve(e):
+                class T(ast.NodeTransformer):
+                    def visit_Name(self, n):
+                        if isinstance(n.ctx, ast.Load) and n.id != p_text:
+                            d = single_assign_value(cfn, n.id)
+                            if d is not None and not isinstance(d, ast.Constant):
+                                import copy
+                                return self.visit(copy.deepcopy(d))
+                        return n
+                import copy
+                return ast.unparse(T().visit(copy.deepcopy(e)))
+
+            txt = resolve(v)
+            ok = txt == p_text or re.fullmatch(re.escape(f"'\\n'.join({p_text}.splitlines()[:") + r"[^\]]+\]\)", txt) is not None \
+                or re.fullmatch(re.escape(f"{p_text}[:") + r"[^\]]+\]", txt) is not None
+            forms.append((txt, ok))
+            if not ok:
+                r.violation(cq, "the returned block is not a prefix of the text",
+                            f"returns {txt}: _find_first_spdx_comment cuts the text at len(comment); a block whose lines were altered"
+                            f" (stripped, re-joined differently) shifts the cut and characters of the old header leak into the body",
+                            repo.loc(rt))
+        mutated = [n for n in ast.walk(cfn) if isinstance(n, ast.Call) and isinstance(n.func, ast.Attribute)
+                   and n.func.attr in ("append", "insert", "pop", "remove", "sort", "reverse", "clear", "extend")
+                   and isinstance(n.func.value, ast.Name) and isinstance(single_assign_value(cfn, n.func.value.id), ast.Call)
+                   and ast.unparse(single_assign_value(cfn, n.func.value.id)) == f"{p_text}.splitlines()"]
+        for mnode in mutated:
+            r.violation(cq, "the line list is modified before the block is re-joined", ast.unparse(mnode)[:80], repo.loc(mnode))
+        r.instance(f"prefix:{cq}", {"function": cq, "returns": [t for t, _ in forms], "all_prefixes": all(o for _, o in forms)}, cq)
+    r.floor(2, "comment_at_first_character implementations", got=n_impl)
     if "if contains_reuse_info(comment):" not in src:
         r.violation(q, "first block WITH REUSE information", "only a comment block that contains REUSE info is the header", repo.loc(fn))
 
